@@ -181,6 +181,7 @@ func c16Run(c *Ctx) {
 	}
 	gen := []string{"help", "help", "man"}[c.K%3]
 	histLabel := ""
+	reparsed := false // the program parsed again after it changed the model (defaults shown are those of the last parse)
 	if inHistTail(c, 15000, 500000) && d.resolveLive(b) == "" {
 		// documents were generated once already; then the program hides one command and shows another (or flips the
 		// hidden mark of an option): the next document follows the model as it is now
@@ -223,7 +224,7 @@ func c16Run(c *Ctx) {
 				v.FC.Hidden, h.FC.Hidden = true, false
 				histLabel = "hidden-swap-of-commands"
 			}
-		} else {
+		} else if r.Bool() {
 			var os []*Opt
 			for _, o := range d.Opts {
 				if o.FO != nil && !o.Prog {
@@ -235,6 +236,26 @@ func c16Run(c *Ctx) {
 				o.Hidden = !o.Hidden
 				o.FO.Hidden = o.Hidden
 				histLabel = "hidden-flip-of-option"
+			}
+		} else {
+			// Option.Default is a public field the parser re-reads on every parse: a program that adjusts a default
+			// after a first (lenient) parse and parses again documents the default that is applied now
+			var os []*Opt
+			for _, o := range d.Opts {
+				if o.FO != nil && !o.Prog && len(o.Defaults) > 0 && o.DefaultMask == "" && !o.T.IsFlag() && !o.T.IsFunc() && !o.Hidden {
+					os = append(os, o)
+				}
+			}
+			if len(os) > 0 {
+				o := os[r.Intn(len(os))]
+				nv := fmt.Sprintf("%s", GenScalarTextSimple(r, o))
+				if len(o.Choices) > 0 {
+					nv = o.Choices[r.Intn(len(o.Choices))]
+				}
+				o.Defaults = []string{nv}
+				o.FO.Default = []string{nv}
+				histLabel = "default-edited"
+				reparsed = true
 			}
 		}
 	}
@@ -290,6 +311,9 @@ func c16Run(c *Ctx) {
 					buf.WriteString(fmt.Sprintf("<<no ErrHelp: %v>>", err))
 				}
 				return
+			}
+			if reparsed {
+				b.P.ParseArgs(nil)
 			}
 			fc := b.P.Command
 			for _, cm := range chain {
@@ -493,7 +517,7 @@ func c16Run(c *Ctx) {
 					if o.DefaultMask != "-" {
 						need["default mask"] = "(default: " + o.DefaultMask + ")"
 					}
-				} else if len(o.Defaults) > 0 && routeA && !o.T.IsFlag() {
+				} else if len(o.Defaults) > 0 && (routeA || reparsed) && !o.T.IsFlag() {
 					allPlain := true
 					for _, dv := range o.Defaults {
 						if !isPrintRef(dv) || !utf8ValidPrintable(dv) {
